@@ -1,6 +1,7 @@
 (* C06 -- convolve equals its defining sum in all six border modes. fix_offset is GENERATED. *)
 Require Import MV.Base.Prelude MV.Base.CInt MV.Base.Index MV.Base.BorderSpec.
 Require Import MV.Gen.Scalar_gen MV.Model.Filter MV.Model.Convolve MV.Proof.Border MV.Proof.ConvProof.
+Require Import MV.Gen.Scalar_gen MV.Proof.Conv1dProof.
 
 (* the C++ border function IS the mathematical border rule (nearest, wrap, reflect, mirror, constant, ignore) *)
 Theorem C06_border_rule : forall m cc len, valid_mode m -> 1 <= len ->
@@ -18,3 +19,11 @@ Proof. repeat split; reflexivity. Qed.
 Theorem C06_convolve_is_defining_sum : forall m f w,
   valid_mode m -> shape_ok (shape f) -> convolve_generic m f w = conv_spec_all m f w.
 Proof. exact convolve_generic_correct. Qed.
+
+(* the convolve1d fast path (interior loop, then border loop, over an output row that np.empty left uninitialised) yields at
+   every column the defining sum with the mathematical border rule: for every mode, row, kernel shorter than the row and
+   every previous content of the buffer *)
+Theorem C06_convolve1d_fast_path_is_defining_sum : forall mode row w garbage,
+  valid_mode mode -> 1 <= Zlen w < Zlen row -> Zlen row < border_flag_value -> Zlen garbage = Zlen row ->
+  forall x, 0 <= x < Zlen row -> nthZ 0 (row_fast mode row w garbage) x = nthZ 0 (row_spec mode row w) x.
+Proof. exact row_fast_is_row_spec. Qed.
